@@ -115,6 +115,16 @@ var (
 		Text: "Format: newPrinter → doFormat → copy buffer → free on the only path; flags cleared at every directive; pooled printers re-initialised and truncated"}
 	rFMT4 = &Rule{Name: "FMT.4", Floor: 50, Fn: ruleFMT4,
 		Text: "agreement with the building toolchain's fmt: verb dispatch tables of fmtBool/fmtInteger/fmtFloat/fmtString/fmtBytes verb by verb (one tabled skew), the flag characters of the directive parser, and the 21 functions that are verbatim ports (alpha-normalised clone comparison with the reference source)"}
+	rPREC1 = &Rule{Name: "PREC.1", Floor: 22, Fn: rulePREC1,
+		Text: "the operator-precedence table of docs/tutorial.md equals Token.Precedence() (operators mapped through the token spelling table); parseBinaryExpr climbs precedence with unary operands, stops below prec1 and parses the right operand at prec+1 (left associativity); parseExpr handles the ternary last; unary + - ! ^ bind tightest"}
+	rSEM = &Rule{Name: "SEM", Floor: 60, Fn: ruleSEM,
+		Text: "SEM.1 every parser Expr/Stmt node type has an arm in Compiler.Compile (tabled: Bad*, EmptyStmt, FuncType, MapElementLit, IdentList); SEM.2 every token with a precedence level is compiled (&&/|| by compileLogical) and emits its own operator; every compound-assignment token the parser accepts emits the matching binary operator; ++/-- are += 1/-= 1; unary ! - ^ + map to their opcodes"}
+	rLIT1 = &Rule{Name: "LIT.1", Floor: 4, Fn: ruleLIT1,
+		Text: "literals are converted from the token's own text by strconv.ParseInt(lit, 0, 64) / ParseFloat(lit, 64) / Unquote(lit) / UnquoteChar(lit[1:n-1], '\\''), the result becomes the node's Value, and int/float/char conversion errors are reported as parse errors"}
+	rPRINT = &Rule{Name: "PRINT", Floor: 30, Fn: rulePRINT,
+		Text: "PRINT.1 BinaryExpr/UnaryExpr/CondExpr print as ( … ) with operands in order and operators spelled by Token.String(); PRINT.2 every Expr/Stmt printer mentions each of its child fields"}
+	rSEMI1 = &Rule{Name: "SEMI.1", Floor: 4, Fn: ruleSEMI1,
+		Text: "the scanner inserts a semicolon at a newline exactly after: identifier, break, continue, return, export, true, false, undefined, number/string/char literals, ) ] }, ++ and -- (Go's rule applied to Tengo's token set)"}
 )
 
 func allProperties() []*Property {
@@ -122,7 +132,7 @@ func allProperties() []*Property {
 		{ID: "C01",
 			Decided:    "compiler, generic codec, opcode tables and every VM arm agree byte for byte on the instruction format.",
 			NotDecided: "the language semantics themselves (values computed by operators, control flow, scoping, builtins).",
-			Rules:      []*Rule{rCODEC1, rCODEC2, rCODEC3, rFRESH, rOPARM, rOPDOC}},
+			Rules:      []*Rule{rCODEC1, rCODEC2, rCODEC3, rFRESH, rOPARM, rOPDOC, rSEM}},
 		{ID: "C02",
 			Decided:    "instruction format agreement; opcode-class agreement.",
 			NotDecided: "stack balance and jump well-formedness for all compiled programs.",
@@ -191,6 +201,10 @@ func allProperties() []*Property {
 			Decided:    "the wiring of the stdlib modules: adapters do what their function type says; table keys name the Go function/constant they wrap; hand-written wrappers call the function their key names with arguments in order; documentation and tables agree; generated source is in sync.",
 			NotDecided: "the Go functions' results (they are the specification); value-level behaviour of hand-written wrappers (size limits, defaults).",
 			Rules:      []*Rule{rADPT1, rADPT2, rADPT3, rADPT4, rADPT5}},
+		{ID: "C20",
+			Decided:    "documented precedence = implemented precedence with left-associative climbing; literal conversion is delegated to strconv on the token text; compound printers are self-delimiting and complete; the semicolon-insertion token set; every operator token the parser can produce is compiled to its own operator.",
+			NotDecided: "the re-parse/re-compile equality as a fact about all programs; literal values (delegated to strconv, trusted); comment/whitespace layouts.",
+			Rules:      []*Rule{rPREC1, rLIT1, rPRINT, rSEMI1, rSEM}},
 		{ID: "C12",
 			Decided:    "constant re-indexing covers exactly the opcodes through which the VM reads the constant pool, with the operand layout of the tables.",
 			NotDecided: "behavioural equality after de-duplication / gob round trip.",
